@@ -67,6 +67,8 @@ pub mod ext {
     /// ASSUMED: cloning an Arc yields a handle to the same object (spec-equal to the original)
     pub assume_specification<T: ?Sized, A: std::alloc::Allocator + Clone> [<std::sync::Arc<T, A> as Clone>::clone] (a: &std::sync::Arc<T, A>) -> (r: std::sync::Arc<T, A>)
         ensures r == *a;
+    /// std::mem::drop: no effect the contracts can see
+    pub assume_specification<T: std::marker::Destruct> [std::mem::drop] (x: T);
     // Cell: contents are opaque (DESIGN 1.4)
     // Two ghost predicates make calls on a Cell visible to contracts without modelling its contents (DESIGN 2.12):
     //  * cell_set_allowed(c, v): may-call side -- `set(c, v)` REQUIRES it; a function that owns the cell states in
